@@ -2,3 +2,5 @@ import Desert.Props.C08
 #print axioms C08.run_extends_any
 #print axioms C08.prefix_rejected
 #print axioms C08.empty_rejected
+#print axioms C08.prefix_is_error
+#print axioms C08.prefix_is_error_faithful
